@@ -153,6 +153,7 @@ int32_t tls13NewTicket(ssl_t *ssl,
     unsigned char pskId[32], iv[12];
     psDynBuf_t buf;
     psSessionTicketKeys_t *key;
+    psSessionTicketKeys_t keyCopy;
     psAesGcm_t ctx;
     unsigned char *state, *tag, *out;
     psSizeL_t stateLen, outLen;
@@ -217,8 +218,10 @@ int32_t tls13NewTicket(ssl_t *ssl,
       containing the PSK and the session parameters.
     */
 
-    key = ssl->keys->sessTickets;
-    if (key == NULL)
+    /* Work on a copy: the list is shared with the other sessions using
+       these keys and may change under us. */
+    key = &keyCopy;
+    if (matrixCopySessionTicketKey(ssl->keys, NULL, &keyCopy) < 0)
     {
         psTraceErrr("Error: no session ticket keys loaded\n");
         tls13FreePsk(psk, ssl->hsPool);
